@@ -47,6 +47,12 @@ func (c *BigIntCaster) MarshalTo(a *big.Int, buf []byte) (int, error) {
 	if bsize > 0 {
 		return bsize + 1, nil
 	}
+	// zero is encoded on two bytes: the second one has to be written as well, the buffer
+	// is not necessarily zeroed (e.g. MarshalTo / MarshalToSizedBuffer into a reused buffer)
+	if len(buf) < 2 {
+		return 0, ErrInvalidValue
+	}
+	buf[1] = 0
 	return 2, nil
 }
 
